@@ -21,6 +21,6 @@ for d in sorted(glob.glob(os.path.join(V, 'seeded', '*'))):
     now = 'caught by quick' if q.get('caught') else 'caught by thorough' if t.get('caught') else 'MISSED'
     by = (q.get('new_groups') or t.get('new_groups') or [''])[0].replace('site=', '').replace(' kind=', ' / ')
     def short(x, n):
-        x = ' '.join(str(x or '').split())
+        x = ' '.join(str(x or '').split()).replace('|', '/')
         return (x[: n - 1] + '…') if len(x) > n else x
     print(f"| {os.path.basename(d)} | {short(m.get('summary'), 170)} | {short(m.get('needs_to_manifest'), 130)} | {first} | {now} | {short(by, 90)} |")
